@@ -31,7 +31,7 @@ type resampleEntry struct {
 // phase 1: SQL text -> real parser -> wire
 
 func (e *engine) runSQL(workers int) {
-	n := e.c.Pick(20_000, 5_000_000)
+	n := e.scaled(e.c.Pick(20_000, 5_000_000))
 	chunks := (n + chunkSize - 1) / chunkSize
 	core.Parallel(chunks, workers, func(k int) {
 		r := e.c.Rand(fmt.Sprintf("sql/%d", k))
@@ -968,7 +968,7 @@ func (e *engine) checkTree(x stmt.Expr, where string, a *acc) {
 }
 
 func (e *engine) runTrees(workers int) {
-	n := e.c.Pick(30_000, 8_000_000)
+	n := e.scaled(e.c.Pick(30_000, 8_000_000))
 	chunks := (n + chunkSize - 1) / chunkSize
 	maxDepth := e.c.Pick(7, 9)
 	core.Parallel(chunks, workers, func(k int) {
